@@ -412,6 +412,12 @@ func (c08) Generate(r *rand.Rand, t string) []*Case {
 	for i := 0; i < nl; i++ {
 		out = append(out, c08LateHints(r, i%3))
 	}
+	// stream nested-fill (c08_fill.go): render / extend a nested placeholder through its retained
+	// pointer / render again, over all group kinds and Dict pairs
+	nn := tier(t, 1500, 40000)
+	for i := 0; i < nn; i++ {
+		out = append(out, c08FillCase(r, i%2))
+	}
 	return out
 }
 
@@ -739,7 +745,12 @@ func (c08) Regressions() []*Case {
 	}
 }
 
-func (c08) Compare(c *Case, exp, got []hist.Obs) string { return CompareAll(exp, got) }
+func (c08) Compare(c *Case, exp, got []hist.Obs) string {
+	if m, ok := c.Meta["c08f"].(*c08fMeta); ok {
+		return c08fCompare(m.Views, exp, got) // stream nested-fill: the replayed renders are left out
+	}
+	return CompareAll(exp, got)
+}
 
 func c08IsRender(op hist.Op) bool {
 	return op.Kind == "render" || op.Kind == "rcode" || op.Kind == "rplain"
@@ -787,6 +798,9 @@ func c08NameHinted(h hist.History, i int, path string) bool {
 }
 
 func (c08) Oracle(c *Case, got []hist.Obs) string {
+	if m, ok := c.Meta["c08f"].(*c08fMeta); ok {
+		return c08fTwinOracle(m.Spec, m.Views, got, m.MustWrite)
+	}
 	info := c.Meta["c08"].(*c08info)
 	rc := &RefCase{Paths: info.Paths}
 	known := map[int]map[string]string{} // file -> path -> qualifier ("" = bare) as first written
@@ -980,6 +994,9 @@ func c08Keys(m map[string]string) map[string]bool {
 
 // Shrink: drop one operation (never the constructor).
 func (c08) Shrink(c *Case) []*Case {
+	if _, ok := c.Meta["c08f"]; ok {
+		return nil // the operations of stream nested-fill refer to one another (retained pointers, replayed renders)
+	}
 	var out []*Case
 	for i := len(c.Hist) - 1; i >= 1; i-- {
 		h := append(append(hist.History{}, c.Hist[:i]...), c.Hist[i+1:]...)
